@@ -771,3 +771,36 @@ func digestOf(err error, v interface{}) uint64 {
 	}
 	return d
 }
+
+// flipArrays flips bit 0 of the last octet of every settable uint8 array (the fixed-size
+// contents of elements) reachable from v without replacing any pointer; n counts the edits.
+func flipArrays(v reflect.Value, n *int) {
+	switch v.Kind() {
+	case reflect.Ptr, reflect.Interface:
+		if !v.IsNil() {
+			flipArrays(v.Elem(), n)
+		}
+	case reflect.Struct:
+		for i := 0; i < v.NumField(); i++ {
+			flipArrays(v.Field(i), n)
+		}
+	case reflect.Slice:
+		if v.Type().Elem().Kind() == reflect.Uint8 {
+			return
+		}
+		for i := 0; i < v.Len(); i++ {
+			flipArrays(v.Index(i), n)
+		}
+	case reflect.Array:
+		if v.Type().Elem().Kind() == reflect.Uint8 {
+			if l := v.Len(); l > 0 && v.Index(l-1).CanSet() {
+				v.Index(l - 1).SetUint(v.Index(l-1).Uint() ^ 0x01)
+				*n++
+			}
+			return
+		}
+		for i := 0; i < v.Len(); i++ {
+			flipArrays(v.Index(i), n)
+		}
+	}
+}
